@@ -719,13 +719,15 @@ func (g *G) appendStmt(sc *scope, depth int) []string {
 	}
 	v := vs[g.pick("appendvar", len(vs))]
 	v.Used = true
-	if g.chance("appendslice", 25) {
+	if g.chance("appendslice", 30) {
 		others := g.varsOf(sc, func(o *Var) bool { return o != v && o.T.Same(v.T) })
-		if len(others) > 0 {
+		g.label("append-slice")
+		if len(others) > 0 && g.chance("appendothervar", 60) {
 			o := others[g.pick("appendother", len(others))]
-			g.label("append-slice")
 			return []string{fmt.Sprintf("%s = append(%s, %s...)", v.Name, v.Name, use(o))}
 		}
+		fresh, _ := g.freshSlice(sc, v.T, depth)
+		return []string{fmt.Sprintf("%s = append(%s, %s...)", v.Name, v.Name, fresh)}
 	}
 	g.label("append")
 	line := fmt.Sprintf("%s = append(%s, %s)", v.Name, v.Name, g.expr(sc, v.T.Elem, min(depth, 2)))
@@ -786,7 +788,6 @@ func (g *G) closureStmt(sc *scope, depth int) []string {
 	var body []string
 	if mutate {
 		cv := captured[g.pick("clcap", len(captured))]
-		cv.Used = true
 		g.prog.Features["closure-mutates-capture"]++
 		saved.labels["closure-mutates-capture"] = true
 		body = append(body, cv.Name+" = "+g.expr(inner, cv.T, 1))
